@@ -171,6 +171,31 @@ def relocate_stream(rng, pid, kinds=ALL_KINDS):
     return out
 
 
+def nested_stream(rng, pid, n=60):
+    """two wrappers nested on the same threads: the iterator under test wraps the sequential view `values()` of an inner concurrent
+    iterator over the probe (so a pull of the outer one pulls from the inner one from inside its wrapped `next()`).
+    Implementation only"""
+    out = []
+    for i in range(n):
+        L = rng.choice([0, 1, 3, 5, 8])
+        c = make_source(rng, "%s-nest%d" % (pid, i), "iter", L, hint="unbounded")
+        nt = rng.randint(1, 3)
+        c.threads = []
+        for t in range(nt):
+            ops = [rng.choice(["next", "next", "nextv", "chunk 2 all", "chunk 3 1", "bufnew 2 ; bufnext all ; bufnext 1", "foreach 1", "foreach 2", "values", "hasmore", "len"])
+                   for _ in range(rng.randint(1, 4))]
+            ops = [o for op in ops for o in op.split(" ; ")]
+            if rng.random() < 0.5:
+                ops.append(rng.choice(["foreach 1", "enumforeach 2", "fold 2"]))
+            c.threads.append(ops)
+        c.nested = True
+        c.sched = rand_sched(rng, nt, rng.randint(0, 40))
+        c.owner = rng.choice(["drop", "intoseq all"])
+        c.tags = {"implonly", "nomodel"}
+        out.append(c)
+    return out
+
+
 def long_chunk_stream(rng, pid):
     """one-shot and buffered chunk pulls of several thousand positions over a wrapped iterator while other threads reserve single
     positions at many different moments of the fill (a chunk is *one* reservation however long it is). Implementation only"""
@@ -914,7 +939,8 @@ def stream_for0(pid, tier, seed):
     big = tier != "quick"
     if pid in ("C01", "C02", "C04"):
         return defects + pulls_stream(rng, tier, pid) + half_stream(rng, pid) + nth_stream(rng, pid) + liar_stream(rng, pid) + zst_stream(rng, pid) + pod_stream(rng, pid) + \
-            wrapper_nth_stream(rng, pid) + last_stream(rng, pid) + forget_stream(rng, pid) + relocate_stream(rng, pid) + stall_stream(rng, pid) + reenter_stream(rng, pid) + many_threads_stream(rng, pid) + long_chunk_stream(rng, pid)
+            wrapper_nth_stream(rng, pid) + last_stream(rng, pid) + forget_stream(rng, pid) + relocate_stream(rng, pid) + stall_stream(rng, pid) + reenter_stream(rng, pid) + many_threads_stream(rng, pid) + long_chunk_stream(rng, pid) + nested_stream(rng, pid) + \
+            [c for c in inpanic_stream(rng, pid) if "P" not in (c.script or [])]
     if pid == "C03":
         cases = defects + pulls_stream(rng, tier, pid, prof=dict(loops=False, query=False, drain=0.2))
         cases += half_stream(rng, pid) + nth_stream(rng, pid) + liar_stream(rng, pid) + zst_stream(rng, pid) + pod_stream(rng, pid)
@@ -1145,7 +1171,10 @@ def stream_for0(pid, tier, seed):
         return cases + twins
     if pid == "C16":
         return [c for c in defects if c.id[0] in "HR" or c.id.startswith("D10")] + boundary_stream(rng, tier) + huge_chunk_stream(rng, pid) + \
-            huge_then_skip_stream(rng, pid)
+            huge_then_skip_stream(rng, pid) + \
+            exhaustive("C16-z2", small_bases(rng, [[["chunk 0 all", "next"], ["next", "next"]], [["chunk 0 1", "chunk 0 all"], ["chunk 2 all", "next"]],
+                                                   [["next", "chunk 0 all"], ["bufnew 2", "bufnext all"]]],
+                                             ["slice", "vec", "range", "array", "iter"], n=4), 2, 8 if not big else 11)
     if pid == "C17":
         return defects + pulls_stream(rng, tier, pid, prof=dict(skip=True), exh=False, n_random=2000 if not big else 80000) + \
             [c for c in boundary_stream(rng, tier) if c.kind == "range"][::3] + huge_chunk_stream(rng, pid) + spare_stream(rng, pid) + rawget_stream(rng, pid)
